@@ -18,6 +18,23 @@ CLAIMED = {
             'plus an explicit-state BFS over the shared executors / config.precision (cache-colliding call alphabet) whose invariant is bit-identity with a fresh executor and agreement with the sum.',
             'Trusted: numpy matmul/FFT/exp; shapes up to 4x4 (quick) / 7x7 (thorough); Q and shift from finite alphabets (int/float/tuple/list forms, Q<1, per-axis, integer and fractional shifts); history depth 4 / 5; tolerance 2e3 eps (measured honest error <= 70 eps).',
             'bounded-exhaustive scope exploration with operator-matrix (basis) closure + explicit-state BFS over executor cache / precision histories', 'DESIGN.md 4/C01'),
+    'C07': ('Every order up to the bound x every shape parameter of a 10x10 (alpha,beta) grid (all special cases) x every point of a fixed point set, in every input form (scalar, 1-D, 2-D, 3-D, float32), '
+            'executed on the real polynomial routines and compared with exact-rational textbook definitions; Gram matrices under exact-degree Gauss rules against diag(h_n); Qbfs/Q2d by their defining slope/gradient orthonormality; '
+            'plus a depth-2 history exploration of the lru caches (every ordered pair of a 136-configuration collision alphabet, cold vs warm bit-identity) and whole-enumeration cold/warm sweeps.',
+            'Trusted: fractions.Fraction arithmetic, numpy Gauss nodes; orders n<=12 (quick) / 40 (thorough), Zernike n<=12/30, Q2d n,m<=6/10; a polynomial identity of degree d checked at > d points is the identity; tolerance K(n+1) eps cond with >=32x measured margin.',
+            'bounded-exhaustive scope exploration vs exact-rational reference + exhaustive depth-2 cache-history exploration', 'DESIGN.md 4/C07'),
+    'C08': ('Every non-empty ascending subset of orders [0..6] (quick) / [0..9] (thorough) for each of the 22 one-index *_seq functions, every ordered list of length <=3 from a 9-pair pool for the 4 two-index ones, '
+            'x coordinate shapes 0-D..3-D including leading dimension == number of orders x dtypes, each compared mode for mode with the scalar-order function (the relation the property states).',
+            'Trusted: the scalar-order functions are the reference by the property\'s own wording (their correctness is C07/C09); subsets of [0..9]; tolerance 64 eps cond (measured <= 1.7).',
+            'bounded-exhaustive enumeration of all order subsets / lists x coordinate shapes on the implementation', 'DESIGN.md 4/C08'),
+    'C11': ('Direct exhaustive enumeration: every index j up to the end of the row containing 1e5 (quick) / 2e6 (thorough) for Noll, Fringe, ANSI and XY, in row-aligned blocks so that injectivity and surjectivity onto the complete valid set are decided literally, '
+            'with an exact-integer brute-force reference of the published orderings, inverse maps on every index, Noll parity / monotone n, ANSI closed form; every valid (n,m) with n<=400/1500 through the nm_to_* maps and back.',
+            'Trusted: Python integer arithmetic; bound on j and n as stated (float sqrt/ceil failure modes beyond 2e6 are outside the bound).',
+            'exhaustive enumeration of the index space up to the bound against an exact-integer reference model', 'DESIGN.md 4/C11'),
+    'C14': ('Round trip: every (shape, value class, NaN pattern, dx, wavelength) cell of the written-file scope through all three writer/reader pairs, with marked-corner ramps so orientation is decided; '
+            'fault enumeration: EVERY truncation point (every byte of the binary format, every character of the text format) of every small written file, each outcome classified exception / returned+warned+marked / silent.',
+            'Trusted: the file-position -> sample map is measured with a probe file of unique values; files <= 20 samples for truncation; the text format has no length field (recorded known finding: cut inside the last token).',
+            'exhaustive scope exploration + exhaustive fault (truncation-point) enumeration on the real writers/readers', 'DESIGN.md 4/C14'),
 }
 
 PENDING_REASON = 'check not built yet in this revision (planned: DESIGN.md section 4); not claimed until its explorer exists and is silent on the fixed tree'
